@@ -37,8 +37,8 @@ pub mod btree_range {
         }
     }
 
-    #[verifier::external_body]
     #[verifier::reject_recursive_types(V)]
+    #[verifier::external_body]
     pub struct BTreeRange<'a, V> { inner: std::collections::btree_map::Range<'a, u64, V> }
 
     impl<'a, V> BTreeRange<'a, V> {
